@@ -17,19 +17,21 @@ from vf.core import MachineryError, exc_record
 PROCS = min(16, os.cpu_count() or 4, int(os.environ.get("VERIF_PROCS", "16")))
 
 
-def run_spec(ctx, cfg, what, shards=None, env=None, timeout=1700, expect_violation=False):
-    """run Instantiate.tla with `cfg` split over `shards` TLC processes (1 worker each); returns (programs, results)"""
+def run_spec(ctx, cfg, what, shards=None, env=None, timeout=1700, expect_violation=False, only=None):
+    """run Instantiate.tla with `cfg` split over `shards` TLC processes (1 worker each); returns (programs, results).
+    only = k: run only the first k shards (a 1/shards-sized sample each) instead of the whole family"""
     shards = shards or max(1, min(PROCS, 8))
     env = dict(env or {})
+    todo = range(shards) if only is None else range(min(only, shards))
 
     def one(k):
         e = dict(env, NSHARDS=str(shards), SHARD=str(k))
         return tlc.run("Instantiate", cfg, workers=1, env=e, deadlock=False, timeout=timeout)
 
-    with ThreadPoolExecutor(shards) as ex:
-        results = list(ex.map(one, range(shards)))
+    with ThreadPoolExecutor(max(1, len(todo))) as ex:
+        results = list(ex.map(one, todo))
     progs = []
-    for k, r in enumerate(results):
+    for k, r in zip(todo, results):
         ctx.add_tlc(r, "%s [shard %d/%d]" % (what, k, shards))
         if r.violated and not expect_violation:
             raise MachineryError("spec Instantiate (%s) violates %s - spec defect, not a pymoca verdict\n%s" % (
@@ -121,8 +123,41 @@ def check_variant(item):
         res["drift"] = attr_drift(exp, obs)
     if not v["rej"]:
         res["asbuilt_same"] = not diff_flat(ir_flat.expected_flat(v["op"]), obs, True)
-    res["obs"] = obs if res["diffs"] else None
+    res["obs"] = obs if (res["diffs"] or res["drift"]) else None
     return res
+
+
+def evaluate(ctx, progs, with_attrs, asbuilt_cfg, canonical_only_exc=False):
+    """check every variant of every program; for the programs with a failing variant ask the AS-BUILT configuration of
+    the same spec what it predicts (file family).  Returns [(prog, j, verdict, asbuilt_prediction_or_None)]"""
+    from vf.core import jkey
+    items = [(p, j, with_attrs) for p in progs for j in range(len(p["variants"]))]
+    out = par.pmap(check_variant, items, PROCS)
+    failing = {}
+    for (p, j, _), r in zip(items, out):
+        sp = p["variants"][j]["sp"]
+        if r["diffs"] or (r["kind"] == "exc" and (sp == "mixed" or not canonical_only_exc)):
+            failing[jkey(p["pv"])] = p["pv"]
+    ab = {}
+    if failing:
+        abp, _ = run_file_family(ctx, asbuilt_cfg, list(failing.values()),
+                                 "as-built predictions for the %d programs with a failing variant" % len(failing))
+        for q in abp:
+            ab[jkey(q["pv"])] = {v["sp"]: {"rej": v["rej"], "op": v["op"]} for v in q["variants"]}
+        if len(ab) != len(failing):
+            raise MachineryError("as-built run returned %d of %d programs" % (len(ab), len(failing)))
+    return [(p, j, r, ab.get(jkey(p["pv"]), {}).get(p["variants"][j]["sp"])) for (p, j, _), r in zip(items, out)]
+
+
+def asbuilt_predicts(r, asbuilt):
+    """does the as-built configuration of the spec predict exactly what the code did on this variant?"""
+    if asbuilt is None:
+        return False
+    if r["kind"] == "exc":
+        return bool(asbuilt["rej"])
+    if asbuilt["rej"]:
+        return False
+    return not diff_flat(ir_flat.expected_flat(asbuilt["op"]), r["obs"], True)
 
 
 def scenario_of(prog, j):
